@@ -1215,7 +1215,6 @@ impl<C: Config, Q: Query> Snapshot<C, Q> {
             crate::engine::computation_graph::ActiveComputationGuard,
         >,
     ) {
-        let mut tx = self.engine().new_write_transaction();
         let engine = self.engine().clone();
         let query_id = *self.query_id();
 
@@ -1223,6 +1222,11 @@ impl<C: Config, Q: Query> Snapshot<C, Q> {
         self.upgrade_to_exclusive().await;
 
         async move {
+            // The write batch is created inside the guarded block: a batch
+            // that is created and then dropped (cancellation at the await
+            // above) panics in `WriteBatch::drop` and leaves a gap in the
+            // commit pipeline that stalls every later commit.
+            let mut tx = engine.new_write_transaction();
             crate::verif_pause!("bp.g.start", Some(&query_id));
             engine
                 .computation_graph
